@@ -24,6 +24,9 @@ rows = []
 for sid in sorted(os.path.basename(d) for d in glob.glob(V + '/seeded/C*')):
     m = json.load(open(os.path.join(V, 'seeded', sid, 'meta.json')))
     cr = m.get('check_result')
+    if m.get('neutralised_by'):
+        rows.append('| %s | %s | neutralised by fix %s (see meta.json) | |' % (sid, m['property'], m['neutralised_by']))
+        continue
     rows.append('| %s | %s | %s | %s |' % (sid, m['property'], 'caught (exit 1)' if cr and cr['caught'] else ('MISSED (exit %s)' % cr['exit'] if cr else 'not run'),
                                          (cr['first_lines'][1] if cr and len(cr['first_lines']) > 1 else '').replace('|', '/')[:140]))
 open(os.path.join(V, 'seeded', 'RESULTS.md'), 'w').write('| seed | property | quick check | first rejected observation |\n|---|---|---|---|\n' + '\n'.join(rows) + '\n')
